@@ -211,8 +211,8 @@ class Check:
         o = Obl(name, func)
         o.kind = kind
         o.backend = backend
-        o.status = "discharged" if ok else "refuted"
-        o.detail = detail
+        o.status = "discharged" if ok else ("undecided" if kind == "reachability" else "refuted")
+        o.detail = detail if ok or kind != "reachability" else "reachability guard failed (not a property violation): " + detail
         self.obls.append(o)
         return o
 
@@ -255,6 +255,7 @@ class Check:
 
     def dump_child(self, path):
         """Child side: replay own violations, then write obligations for the parent."""
+        self.run_finders()
         known = load_known()
         os.makedirs(os.path.join(VERIF, "replays"), exist_ok=True)
         out = []
@@ -294,7 +295,34 @@ class Check:
         for k, v in data.get("engine", {}).items():
             self.engine_stats[k] = self.engine_stats.get(k, 0) + v
 
+    def run_finders(self):
+        """For obligations the solver left undecided: a registered bounded counterexample finder
+        (a native script over the real code) may turn them into a refutation WITH a concrete
+        failing input; a miss leaves them undecided."""
+        finders = getattr(self, "finders", {})
+        done = {}
+        for o in self.obls:
+            if o.status != "undecided" or o.kind == "reachability":
+                continue
+            for prefix, mk in finders.items():
+                if not o.name.startswith(prefix):
+                    continue
+                if prefix not in done:
+                    spec = mk()
+                    try:
+                        done[prefix] = (spec, run_replay(spec["script"], spec.get("input"), self.repo, timeout=spec.get("timeout", 600)))
+                    except Exception as ex:  # noqa
+                        done[prefix] = (spec, {"violates": False, "error": repr(ex)})
+                spec, res = done[prefix]
+                if res.get("violates"):
+                    o.status = "refuted"
+                    o.backend = "solver undecided; bounded counterexample search on the real code"
+                    o.detail = "failing input found by bounded search: " + json.dumps(res)[:700]
+                    o.replay = {"confirmed": True, "script": spec["script"], "input": spec.get("input"), "native": res}
+                break
+
     def finish(self) -> int:
+        self.run_finders()
         known = load_known()
         viol, undec, crash = [], [], []
         announced = set()
